@@ -82,6 +82,7 @@ def job_local(ses, proto, fkind, akind):
     tag = '%s footer=%s assertion=%s' % (proto, fkind, akind)
     vals = [inp.K, inp.N, utf8(inp.M), Fb, Ab]
     names = ['key', 'nonce', 'message', 'footer', 'assertion']
+    builder_frame_check(ses, w, E, tag, proto, fkind, akind)      # the n-th token of one builder is the specification's token as well
     for se, re_ in E:
         if not is_ok(re_): continue
         T = re_[3][0]
@@ -118,6 +119,7 @@ def job_public(ses, proto, fkind, akind):
     mb = utf8(inp.M); m2 = spec_public_m2(proto, inp.PK, mb, Fb, Ab)
     tag = '%s footer=%s assertion=%s' % (proto, fkind, akind)
     vals = [getattr(inp, 'seed', inp.K), utf8(inp.M), Fb, Ab]; names = ['key', 'message', 'footer', 'assertion']
+    builder_frame_check(ses, w, E, tag, proto, fkind, akind)
     for se, re_ in E:
         if not is_ok(re_): continue
         T = re_[3][0]
